@@ -308,11 +308,72 @@ fn build(r: u64, log: &Log, wrap: &str, plf: bool) -> Dispatch {
     }
 }
 
+/// `poison` behaviours: user code panics (caught) inside a layer callback while it holds a span's ExtensionsMut; the span
+/// is exited and closed, and later spans reuse its slot - none of them may see anything of it (stale data, a poisoned lock).
+struct Marker;
+struct PoisonLayer {
+    arm: Arc<std::sync::atomic::AtomicBool>,
+    stale: Arc<std::sync::atomic::AtomicU64>,
+}
+impl<C: tracing_core::Collect + for<'a> LookupSpan<'a>> Subscribe<C> for PoisonLayer {
+    fn on_new_span(&self, _: &span::Attributes<'_>, id: &span::Id, ctx: Context<'_, C>) {
+        let s = ctx.span(id).expect("new span not found");
+        let mut ext = s.extensions_mut();
+        if ext.get_mut::<Marker>().is_some() {
+            self.stale.fetch_add(1, std::sync::atomic::Ordering::SeqCst);
+        }
+        ext.replace(Marker);
+    }
+    fn on_enter(&self, id: &span::Id, ctx: Context<'_, C>) {
+        if self.arm.swap(false, std::sync::atomic::Ordering::SeqCst) {
+            let s = ctx.span(id).expect("entered span not found");
+            let _held = s.extensions_mut();
+            panic!("user code panics while it holds the span's extensions");
+        }
+    }
+}
+fn poison(beh: &Value) {
+    let rounds = beh["rounds"].as_u64().unwrap();
+    let reuse = beh["reuse"].as_u64().unwrap_or(3);
+    let arm = Arc::new(std::sync::atomic::AtomicBool::new(false));
+    let stale = Arc::new(std::sync::atomic::AtomicU64::new(0));
+    let d = Dispatch::new(Registry::default().with(PoisonLayer { arm: arm.clone(), stale: stale.clone() }));
+    let (mut poisoned, mut panics) = (0u64, 0u64);
+    dispatch::with_default(&d, || {
+        for r in 0..rounds {
+            let a = tracing::span!(Level::INFO, "victim", k = r);
+            let id = a.id().expect("victim disabled");
+            arm.store(true, std::sync::atomic::Ordering::SeqCst);
+            if vh_common::catch(|| d.enter(&id)).is_err() {
+                poisoned += 1;
+            }
+            let _ = vh_common::catch(|| d.exit(&id));
+            let _ = vh_common::catch(move || drop(a));
+            // unrelated spans created afterwards land in the freed slot
+            for j in 0..reuse {
+                if vh_common::catch(|| {
+                    let b = tracing::span!(Level::INFO, "later", k = j);
+                    let _e = b.enter();
+                })
+                .is_err()
+                {
+                    panics += 1;
+                }
+            }
+        }
+    });
+    runner::child_emit(json!({"ev": "poison", "rounds": rounds, "poisoned": poisoned, "panics": panics, "stale": stale.load(std::sync::atomic::Ordering::SeqCst)}));
+}
+
 fn child() {
     vh_common::quiet_panics();
     let beh = runner::child_input();
     if beh["mode"] == "racedrop" {
         racedrop(&beh);
+        return;
+    }
+    if beh["mode"] == "poison" {
+        poison(&beh);
         return;
     }
     let log = new_log();
